@@ -320,7 +320,7 @@ def check(tier: str, seed: int, t0: float, build: core.BuildStatus) -> int:
         tries = 0
         while done < n_random and tries < n_random * 6 and time.time() - t0 < budget:
             tries += 1
-            src, q = qgen.gen_query(rng, uni, depth=rng.choice([1, 2, 3]), allow=["first", "selectmany_inside"])
+            src, q = qgen.gen_query(rng, uni, depth=rng.choice([1, 2, 3]), allow=["first", "selectmany_inside", "shared_shapes"])
             if not ({"first", "boolop", "ifexp", "event_where"} & q.feat):
                 continue
             done += 1
